@@ -522,7 +522,10 @@ func c1classByDiff(p c1prog, base, res c1res, diffs []c1diff) string {
 			found["closedness-of-embedded-reference-depends-on-arrangement"] = true
 		case selfRef && (strings.HasPrefix(sa, "|(") || strings.HasPrefix(sb, "|(") || d.kind != "value"):
 			found["self-reference-inside-disjunction-or-comprehension"] = true
-		case p.stream == "corpus" && strings.Contains(p.name, "/cycle/") && d.kind != "value":
+		case d.kind == "value" && c1flagRe.ReplaceAllString(sa, "") == c1flagRe.ReplaceAllString(sb, ""):
+			// nothing but the closed flags of the vertex (Value.IsClosed) differs
+			found["closed-flag-of-vertex-depends-on-arrangement"] = true
+		case p.stream == "corpus" && strings.Contains(p.name, "/cycle/"):
 			found["cyclic-mutual-constraint-error-placement"] = true
 		case nMarks >= 2 && (strings.Contains(sa, ";*") || strings.Contains(sb, ";*") || d.kind != "value"):
 			found["default-order-several-marked-disjunctions"] = true
@@ -534,7 +537,7 @@ func c1classByDiff(p c1prog, base, res c1res, diffs []c1diff) string {
 	}
 	for _, c := range []string{"closedness-of-embedded-reference-depends-on-arrangement",
 		"self-reference-inside-disjunction-or-comprehension", "cyclic-mutual-constraint-error-placement",
-		"default-order-several-marked-disjunctions",
+		"default-order-several-marked-disjunctions", "closed-flag-of-vertex-depends-on-arrangement",
 		"top-unified-with-struct-holding-failing-comprehension",
 		"missing-field-reference-fatal-vs-incomplete", "error-placement-through-reference"} {
 		if found[c] {
@@ -620,6 +623,17 @@ func c1hasEmbeddedRef(src string) bool {
 			found = true
 		case *ast.CallExpr:
 			found = true
+		case *ast.StructLit:
+			// an embedded literal with `...` (C05: a `...` inside an embedding opens the node
+			// against closed sibling conjuncts) or with embeddings of its own
+			for _, d := range x.Elts {
+				switch d := d.(type) {
+				case *ast.Ellipsis:
+					found = true
+				case *ast.EmbedDecl:
+					operand(d.Expr)
+				}
+			}
 		case *ast.ParenExpr:
 			operand(x.X)
 		case *ast.BinaryExpr:
@@ -722,6 +736,10 @@ func c1Corpus(repo string) []c1prog {
 			return nil
 		}
 		rel, _ := filepath.Rel(repo, path)
+		if strings.Contains(string(cues[0].Data), "@experiment(") {
+			// unstable language experiments (try, aliasv2, explicitopen) are out of scope
+			return nil
+		}
 		out = append(out, c1prog{name: rel + ":" + cues[0].Name, stream: "corpus", src: string(cues[0].Data)})
 		return nil
 	})
@@ -777,8 +795,20 @@ func runC01(c *Cfg) {
 	}
 	gr := r.Sub()
 	for i := 0; i < nGen; i++ {
-		g := &c1gen{r: gr.Sub(), counts: map[string]int{}, maxDepth: 2 + i%2}
-		src := g.Program()
+		var g *c1gen
+		var src string
+		// mostly valid programs: an erroneous draw is redrawn (up to 5 times) 3 times out of 4
+		keepErr := gr.Chance(1, 4)
+		for try := 0; try < 6; try++ {
+			g = &c1gen{r: gr.Sub(), counts: map[string]int{}, maxDepth: 2 + i%2}
+			src = g.Program()
+			if keepErr {
+				break
+			}
+			if res := c1Eval([]string{src}); res.info != nil && res.info.nErr == 0 {
+				break
+			}
+		}
 		for k, n := range g.counts {
 			for j := 0; j < n; j++ {
 				c.Count("gen:" + k)
